@@ -225,12 +225,9 @@ class Result:
             print('KNOWN-FINDING: property=%s %s [%s; observed %d time(s) in this run]' % (self.prop, text, fid, c))
         self.cov['known_findings_observed'] = {k: v[0] for k, v in self.known.items()}
         nv = 0
-        seen = set()
         for what, payload in self.violations:
-            key = what
-            if key in seen and nv >= 5:
-                continue
-            seen.add(key)
+            if nv >= 5:
+                break
             nv += 1
             path = write_replay(self.prop, nv, dict(property=self.prop, what=what, **payload))
             print('VIOLATION property=%s replay=%s' % (self.prop, path))
